@@ -4,7 +4,7 @@ CONSTANTS
   ACodec = "opus"
   MaxPub = 5
   MaxVer = 2
-  VKinds <- HevcAll
+  VKinds <- HevcCore
   DtPool <- Dt2
   AscPool = {1, 2, 3}
   ProbeMax = 16
